@@ -65,6 +65,46 @@ def _install_adjustments():
             return _orig_int_repr(x)
         return x.__repr__()
     core._PATCH_REGISTRATIONS[int.__repr__] = _int_repr
+    # (11) int(x) of a real-modelled symbolic float is a z3 term (truncation toward zero), not a realisation:
+    # kopf parses `int(float(retry_after))`.
+    import z3 as _z3
+    _orig_int = core._PATCH_REGISTRATIONS.get(int)
+
+    _reent = {'n': 0}
+
+    def _int_of_real(val=0, *a, **kw):
+        with _NT():
+            isreal = isinstance(val, _bl.RealBasedSymbolicFloat) and not a and not kw
+            if not isreal and _reent['n']:
+                return int(val, *a, **kw)   # the inner int() of CrossHair's own patch: native
+        if not isreal:
+            _reent['n'] += 1
+            try:
+                return _orig_int(val, *a, **kw)
+            finally:
+                _reent['n'] -= 1
+        if isreal:
+            if val >= 0:
+                with _NT():
+                    return _bl.SymbolicInt(_z3.ToInt(val.var))
+            neg = -val
+            with _NT():
+                pos = _bl.SymbolicInt(_z3.ToInt(neg.var))
+            return -pos
+        return _orig_int(val, *a)
+    if _orig_int is not None:
+        core._PATCH_REGISTRATIONS[int] = _int_of_real
+    # (13) callable(n) of a symbolic number is False without realising it (kopf: `callable(handler.initial_delay)`).
+    _orig_callable = core._PATCH_REGISTRATIONS.get(callable)
+
+    def _callable(obj):
+        with _NT():
+            if isinstance(obj, (_bl.SymbolicNumberAble, _bl.AnySymbolicStr)):
+                return False
+            if _orig_callable is None or not isinstance(obj, _bl.CrossHairValue):
+                return callable(obj)
+        return _orig_callable(obj)
+    core._PATCH_REGISTRATIONS[callable] = _callable
     import crosshair.statespace as ss
 
     stats = {'queries': 0, 'solver_s': 0.0, 'unknown': 0, 'realizations': 0}
